@@ -48,17 +48,12 @@ pub fn format_stub(_args: core::fmt::Arguments<'_>) -> String {
 
 const HDR: usize = 32;
 
-/// a zero buffer in which only the listed positions are symbolic: routing harnesses pin *which bytes end up in
-/// which field*; that every byte of every struct lands in its field is the job of the complete layout harnesses,
-/// and fully symbolic 50-80 byte messages through the seeking decoder exceed the solver budget (measured)
-fn sym_at<const N: usize>(positions: &[usize]) -> [u8; N] {
-    let mut b = [0u8; N];
-    let mut i = 0;
-    while i < positions.len() {
-        b[positions[i]] = kani::any();
-        i += 1;
-    }
-    b
+/// makes the listed positions of a zero buffer symbolic (no loop: every extra unwinding step is paid at each `?`
+/// of the decoder, because CBMC unrolls the recursive drop glue of `result::Error` to the same depth — measured:
+/// unwind 18 turned a 60 s harness into a > 20 GB timeout).  Routing harnesses pin *which bytes end up in which
+/// field*; that every byte of every struct lands in its field is the job of the complete layout harnesses.
+macro_rules! sym {
+    ($b:ident, $($i:expr),*) => { $( $b[$i] = kani::any(); )* };
 }
 
 fn be16(b: &[u8], o: usize) -> u16 {
@@ -98,9 +93,10 @@ fn header_fields(m: &Message, b: &[u8]) {
 }
 
 #[kani::proof]
-#[kani::unwind(18)]
+#[kani::unwind(5)]
 fn drd_route_vol() {
-    let mut bytes: [u8; 36 + 52] = sym_at(&[10, 11, 22, 36, 40, 41, 76, 77, 80, 81, 87]);
+    let mut bytes = [0u8; 36 + 52];
+    sym!(bytes, 10, 11, 22, 36, 40, 41, 76, 77, 80, 81, 87);
     one_block(&mut bytes, b"VOL");
     let mut c = SliceReader { buf: &bytes[..], pos: 0 };
     let m = decode_digital_radar_data(&mut c).unwrap();
@@ -117,9 +113,10 @@ fn drd_route_vol() {
 }
 
 #[kani::proof]
-#[kani::unwind(18)]
+#[kani::unwind(5)]
 fn drd_route_elv() {
-    let mut bytes: [u8; 36 + 12] = sym_at(&[10, 11, 22, 40, 41, 42, 43, 44, 45, 46, 47]);
+    let mut bytes = [0u8; 36 + 12];
+    sym!(bytes, 10, 11, 22, 40, 41, 42, 43, 44, 45, 46, 47);
     one_block(&mut bytes, b"ELV");
     let mut c = SliceReader { buf: &bytes[..], pos: 0 };
     let m = decode_digital_radar_data(&mut c).unwrap();
@@ -134,9 +131,10 @@ fn drd_route_elv() {
 }
 
 #[kani::proof]
-#[kani::unwind(18)]
+#[kani::unwind(5)]
 fn drd_route_rad() {
-    let mut bytes: [u8; 36 + 28] = sym_at(&[10, 11, 22, 40, 41, 42, 43, 54, 55, 60, 61, 62, 63]);
+    let mut bytes = [0u8; 36 + 28];
+    sym!(bytes, 10, 11, 22, 40, 41, 42, 43, 54, 55, 60, 61, 62, 63);
     one_block(&mut bytes, b"RAD");
     let mut c = SliceReader { buf: &bytes[..], pos: 0 };
     let m = decode_digital_radar_data(&mut c).unwrap();
@@ -155,7 +153,8 @@ fn drd_route_rad() {
 /// one generic (moment) block with a concrete gate count and word size (a symbolic buffer length makes CBMC
 /// use > 20 GB); the sizing rule itself is proved for all u16 x u8 by c02_generic_block_new_len
 fn route_generic(name: &[u8; 3], which: usize, gates: u16, ws: u8) {
-    let mut bytes: [u8; 36 + 28 + 4] = sym_at(&[10, 11, 22, 56, 57, 58, 59, 60, 61, 62, 63, 64, 65, 66, 67]);
+    let mut bytes = [0u8; 36 + 28 + 4];
+    sym!(bytes, 10, 11, 22, 56, 57, 58, 59, 60, 61, 62, 63, 64, 65, 66, 67);
     one_block(&mut bytes, name);
     bytes[36 + 8..36 + 10].copy_from_slice(&gates.to_be_bytes());
     bytes[36 + 19] = ws;
@@ -192,33 +191,34 @@ fn route_generic(name: &[u8; 3], which: usize, gates: u16, ws: u8) {
 }
 
 #[kani::proof]
-#[kani::unwind(18)]
+#[kani::unwind(5)]
 fn drd_route_ref() { route_generic(b"REF", 3, 2, 8); }
 #[kani::proof]
-#[kani::unwind(18)]
+#[kani::unwind(5)]
 fn drd_route_vel() { route_generic(b"VEL", 4, 1, 16); }
 #[kani::proof]
-#[kani::unwind(18)]
+#[kani::unwind(5)]
 fn drd_route_sw() { route_generic(b"SW ", 5, 0, 8); }
 #[kani::proof]
-#[kani::unwind(18)]
+#[kani::unwind(5)]
 fn drd_route_zdr() { route_generic(b"ZDR", 6, 2, 16); }
 #[kani::proof]
-#[kani::unwind(18)]
+#[kani::unwind(5)]
 fn drd_route_phi() { route_generic(b"PHI", 7, 1, 8); }
 #[kani::proof]
-#[kani::unwind(18)]
+#[kani::unwind(5)]
 fn drd_route_rho() { route_generic(b"RHO", 8, 3, 8); }
 #[kani::proof]
-#[kani::unwind(18)]
+#[kani::unwind(5)]
 fn drd_route_cfp() { route_generic(b"CFP", 9, 2, 8); }
 
 /// two blocks whose pointers are permuted relative to the layout and separated by a gap:
 /// layout  [hdr 32][ptr0 ptr1][RAD @40..68][gap 4][ELV @72..84] ; pointer order: ELV first, then RAD
 #[kani::proof]
-#[kani::unwind(18)]
+#[kani::unwind(5)]
 fn drd_two_blocks_permuted_gap() {
-    let mut bytes: [u8; 84] = sym_at(&[44, 45, 58, 59, 76, 77, 78, 79]);
+    let mut bytes = [0u8; 84];
+    sym!(bytes, 44, 45, 58, 59, 76, 77, 78, 79);
     bytes[30] = 0;
     bytes[31] = 2;
     bytes[32..36].copy_from_slice(&72u32.to_be_bytes());
@@ -320,7 +320,7 @@ fn drd_total_truncated() {
 
 /// C04 (bounded): block count 65535 with a short input is an error, not a crash or a huge allocation
 #[kani::proof]
-#[kani::unwind(18)]
+#[kani::unwind(5)]
 fn drd_total_count_extreme() {
     let mut bytes: [u8; 40] = kani::any();
     bytes[30] = 0xFF;
@@ -381,30 +381,30 @@ fn route_marker(name: &[u8; 3], which: usize) {
 }
 
 #[kani::proof]
-#[kani::unwind(6)]
+#[kani::unwind(5)]
 fn drd_marker_ref() { route_marker(b"REF", 3); }
 #[kani::proof]
-#[kani::unwind(6)]
+#[kani::unwind(5)]
 fn drd_marker_vel() { route_marker(b"VEL", 4); }
 #[kani::proof]
-#[kani::unwind(6)]
+#[kani::unwind(5)]
 fn drd_marker_sw() { route_marker(b"SW ", 5); }
 #[kani::proof]
-#[kani::unwind(6)]
+#[kani::unwind(5)]
 fn drd_marker_zdr() { route_marker(b"ZDR", 6); }
 #[kani::proof]
-#[kani::unwind(6)]
+#[kani::unwind(5)]
 fn drd_marker_phi() { route_marker(b"PHI", 7); }
 #[kani::proof]
-#[kani::unwind(6)]
+#[kani::unwind(5)]
 fn drd_marker_rho() { route_marker(b"RHO", 8); }
 #[kani::proof]
-#[kani::unwind(6)]
+#[kani::unwind(5)]
 fn drd_marker_cfp() { route_marker(b"CFP", 9); }
 
 /// VOL block, concrete except a marker in the VCP number field
 #[kani::proof]
-#[kani::unwind(6)]
+#[kani::unwind(5)]
 fn drd_marker_vol() {
     let mut bytes = [0u8; 36 + 52];
     one_block(&mut bytes, b"VOL");
@@ -440,22 +440,22 @@ fn unknown_name(pos: usize) {
     core::mem::forget(r);
 }
 #[kani::proof]
-#[kani::unwind(8)]
+#[kani::unwind(5)]
 #[kani::stub(alloc::fmt::format, format_stub)]
 fn drd_q_unknown_name_0() { unknown_name(0); }
 #[kani::proof]
-#[kani::unwind(8)]
+#[kani::unwind(5)]
 #[kani::stub(alloc::fmt::format, format_stub)]
 fn drd_q_unknown_name_1() { unknown_name(1); }
 #[kani::proof]
-#[kani::unwind(8)]
+#[kani::unwind(5)]
 #[kani::stub(alloc::fmt::format, format_stub)]
 fn drd_q_unknown_name_2() { unknown_name(2); }
 
 /// symbolic pointer (any u32: backwards into the header, overlapping, far out of range) to a block in a concrete
 /// 80-byte message: value or error, never a panic
 #[kani::proof]
-#[kani::unwind(8)]
+#[kani::unwind(5)]
 #[kani::stub(alloc::fmt::format, format_stub)]
 fn drd_q_pointer_any() {
     let mut bytes = [0u8; 80];
@@ -468,14 +468,12 @@ fn drd_q_pointer_any() {
 }
 
 /// truncation at the structural boundaries of a one-block (ELV) message: every cut is an error and decoding ends
-#[kani::proof]
-#[kani::unwind(10)]
-fn drd_q_truncated_boundaries() {
+/// (three cuts per harness keep the unwinding bound, and with it the drop-glue depth, small)
+fn truncated_at(cuts: [usize; 3]) {
     let mut bytes = [0u8; 48];
     one_block(&mut bytes, b"ELV");
-    let cuts = [0usize, 1, 31, 32, 35, 36, 39, 40, 47];
     let mut i = 0;
-    while i < 9 {
+    while i < 3 {
         let mut c = SliceReader { buf: &bytes[..cuts[i]], pos: 0 };
         let r = decode_digital_radar_data(&mut c);
         assert!(r.is_err());
@@ -483,11 +481,20 @@ fn drd_q_truncated_boundaries() {
         i += 1;
     }
 }
+#[kani::proof]
+#[kani::unwind(5)]
+fn drd_q_truncated_a() { truncated_at([0, 31, 32]); }
+#[kani::proof]
+#[kani::unwind(5)]
+fn drd_q_truncated_b() { truncated_at([35, 36, 39]); }
+#[kani::proof]
+#[kani::unwind(5)]
+fn drd_q_truncated_c() { truncated_at([40, 47, 1]); }
 
 /// a moment block declaring far more gate bytes than remain (5, 1840 and 65535 gates, 8- and 16-bit words, 4 data bytes
 /// present): an error — never a hang or a panic
 #[kani::proof]
-#[kani::unwind(8)]
+#[kani::unwind(5)]
 fn drd_q_gates_short() {
     let gates_set = [5u16, 1840, 65535];
     let k: usize = kani::any();
